@@ -10,6 +10,10 @@ ASSUMPTIONS = [
     "an acknowledgement for a request = a PUBACK/PUBCOMP/SUBACK/UNSUBACK carrying its packet id received after the future was stored (the code does not tie the kind of acknowledgement to the kind of request)",
     "'no caller blocks forever' is a quiescence statement in the model and a 2 s watchdog in the harness",
     "fewer than 65535 packet ids are in flight (C18)",
+    "observation, not a violation (DESIGN section 6): the client keys acknowledgements by packet id only, so a SUBACK/UNSUBACK/PUBACK carrying the id of a pending request of another kind removes the stored packet and completes that request's future (scenario observe/spurious-suback-erases-publish records it on every run); kept_until_acked and future_truthful are stated for 'an acknowledgement packet carrying that id'",
+    "conn.Receive only returns packets the decoder produced (C02): acknowledgements carry a non-zero id",
+    "C09_future_truthful is proved in its step form (a future turns Completed only while an acknowledgement carrying the id it is stored under is processed / CONNACK accepted / after the QoS 0 Send returned nil); the history form with log marks is a Definition and is evaluated on every observed trace by the extracted checker truthful_ok",
+    "clause scanners over the observed event sequence (TraceScan.v: scan_sbs, scan_pubrec, unresolved) are proved to accept every trace the model accepts; they are what turns a rejected trace into a witnessed violation",
 ]
 
 CLAUSES = {}
@@ -23,5 +27,5 @@ def run(ck):
                "predicates store_before_send_ok / truthful_ok / quiescent / pending_futures evaluated after every event; watchers on every "
                "future, accessors called pending and resolved. Scripts: CONNACK variants, acks in/out of order, missing/spurious acks, drop at "
                "each point, concurrent API calls, session reuse across reconnects, one injected failure per Conn/Session operation index; "
-               "D13 and D8 schedules replayed by gating; evaluations = observed events; distinct_nontrivial = distinct (event kind, "
+               "D13, D13b (Reset/NextID collision) and D8 schedules replayed by gating, Conn.Close failing with unacknowledged futures, Disconnect(timeout) incl. 0 with pending futures; evaluations = observed events; distinct_nontrivial = distinct (event kind, "
                "processor pc, API pc, die pc) labels hit")
